@@ -5,6 +5,43 @@ from __future__ import annotations
 from typing import Any, Dict, List, Tuple
 
 
+HS_NONE = {"domain": False, "ver": "", "method": "", "key": False, "wsver": "", "subprotos": [], "deflate": False,
+           "protocol": ""}
+
+
+def ws_h1_request(rid, key: str = "dGhlIHNhbXBsZSBub25jZQ==", wsver: str = "13", subprotos=None, deflate: bool = False,
+                  method: str = "GET", version: str = "1.1", upgrade: str = "websocket", connection: str = "Upgrade",
+                  target: str = "/ws", extra=None, toks=None) -> Dict[str, Any]:
+    """An HTTP/1 WebSocket opening handshake (possibly deliberately incomplete)."""
+    hdrs = [["host", "hypercorn"]]
+    if upgrade is not None:
+        hdrs.append(["upgrade", upgrade])
+    if connection is not None:
+        hdrs.append(["connection", connection])
+    if key is not None:
+        hdrs.append(["sec-websocket-key", key])
+    if wsver is not None:
+        hdrs.append(["sec-websocket-version", wsver])
+    if subprotos:
+        hdrs.append(["sec-websocket-protocol", ", ".join(subprotos)])
+    if deflate:
+        hdrs.append(["sec-websocket-extensions", "permessage-deflate"])
+    hdrs += [list(h) for h in (extra or [])]
+    conn_tokens = [t.strip().lower() for t in (connection or "").split(",")]
+    domain = method.upper() == "GET" and (upgrade or "").lower() == "websocket" and "upgrade" in conn_tokens
+    rq = {"rid": rid, "method": method, "version": version, "headers": hdrs,
+          "upgrade": "websocket" if domain else "", "kind": "ws" if domain else "http",
+          "hs": {"domain": domain, "ver": version, "method": method.upper(), "key": key is not None,
+                 "wsver": wsver if wsver is not None else "", "subprotos": list(subprotos or []), "deflate": deflate,
+                 "protocol": ""},
+          "wskey": key or ""}
+    if toks is not None:
+        rq["toks"] = toks
+    else:
+        rq["target"] = target
+    return rq
+
+
 def h1_session(requests: List[Dict[str, Any]]) -> Dict[str, Any]:
     """Build script fields `stream`, `reqs`, `bodies` for a pipeline of HTTP/1 requests.
 
@@ -97,6 +134,7 @@ def h1_session(requests: List[Dict[str, Any]]) -> Dict[str, Any]:
                 "kind": rq.get("kind", "http"),
                 "stream": 0,
                 "te": False,
+                "hs": rq.get("hs", HS_NONE),
             }
         )
         reqs.append(
@@ -119,7 +157,8 @@ def h1_session(requests: List[Dict[str, Any]]) -> Dict[str, Any]:
             cerr_at = min(cerr_at, r["start"])
         elif c["wantclose"] or c["ver"] == "1.0":
             cerr_at = min(cerr_at, r["end"])
-    return {"stream": parts, "reqs": reqs, "bodies": bodies, "creqs": creqs, "cerr_at": cerr_at}
+    ws = {str(rq["rid"]): {"key": rq["wskey"]} for rq in requests if "wskey" in rq}
+    return {"stream": parts, "reqs": reqs, "bodies": bodies, "creqs": creqs, "cerr_at": cerr_at, "ws": ws}
 
 
 def simple_resp_program(
@@ -166,12 +205,30 @@ def h2_headers(rid, stream: int, method: str = "GET", toks=None, authority: str 
     hdrs += [list(h) for h in (extra or [])]
     hdrs.append(["x-rid", str(rid)])
     step = {"s": "h2", "op": "headers", "stream": stream, "rid": str(rid), "method": method, "hdrs": hdrs, "end": end}
-    step.update(kw)
     step["creq"] = {
         "app": str(rid), "idx": idx or (stream + 1) // 2, "method": method,
         "toks": [[t[0], t[1]] for t in toks],
         "headers": [[h[0], h[1], h[0].lower()] for h in hdrs],
         "ver": "2", "wantclose": False, "bad": False, "total": total, "kind": kind, "stream": stream,
         "te": any(h[0].lower() == "te" and h[1] == "trailers" for h in hdrs),
+        "hs": kw.pop("hs", None) or HS_NONE,
     }
+    step.update(kw)
     return step
+
+
+def ws_h2_connect(rid, stream: int, wsver: str = "13", subprotos=None, deflate: bool = False, protocol: str = "websocket",
+                  toks=None, scheme: str = "https", extra=None) -> Dict[str, Any]:
+    """RFC 8441 extended CONNECT opening a WebSocket on an HTTP/2 stream."""
+    hdrs = []
+    if wsver is not None:
+        hdrs.append(["sec-websocket-version", wsver])
+    if subprotos:
+        hdrs.append(["sec-websocket-protocol", ", ".join(subprotos)])
+    if deflate:
+        hdrs.append(["sec-websocket-extensions", "permessage-deflate"])
+    hdrs += [list(h) for h in (extra or [])]
+    hs = {"domain": True, "ver": "2", "method": "CONNECT", "key": False, "wsver": wsver if wsver is not None else "",
+          "subprotos": list(subprotos or []), "deflate": deflate, "protocol": protocol or ""}
+    return h2_headers(rid, stream, "CONNECT", toks=toks or [["/ws", "/ws"]], extra=hdrs, end=False, scheme=scheme,
+                      protocol=protocol, kind="ws", hs=hs)
